@@ -81,14 +81,22 @@ C19OnlyInEpoch(nd) == ~IsSplit(nd) /\ HasPre(nd) /\ nd.a # "BeginBlock" =>
   LET p == Pre(nd) IN \A k \in 1..Len(p.gauges) : ~GaugeMoved(p.gauges[k], nd.st.gauges[k])
 
 (* no farmer's payout exceeds its pro-rata share of the epoch allocation by (eligible) farmed value *)
-ProRataAt(p, nd, k) ==
+(* C19_ProRataLetter: the bound exactly as stated (share * (1 + 10^-12));                                       *)
+(* C19_ProRata      : the stated bound plus the slack of the 18-decimal multiplier (value * 10^-18, far below one   *)
+(*                    base unit unless a single farmer's value exceeds 10^18) - anything beyond that is never noise  *)
+ProRataAt(p, nd, k, letter) ==
   LET g == p.gauges[k]
       tot == TotalElig(p.pools, g, p.users)
       alloc == AllocNow(g)
-  IN \A u \in 1..Len(p.users) : ProRataOK(Inflow(p, nd, u, g.denom), alloc, Elig(p.pools, g, p.users[u]), tot)
+      den == EligDen(p.pools, g)
+  IN \A u \in 1..Len(p.users) :
+        IF letter THEN ProRataOK(Inflow(p, nd, u, g.denom), alloc, Elig(p.pools, g, p.users[u]), tot)
+        ELSE ProRataNoiseOK(Inflow(p, nd, u, g.denom), alloc, Elig(p.pools, g, p.users[u]), tot, den)
 ProRataChecked(p, nd, k) == nd.st.gauges[k].trig = p.gauges[k].trig + 1 /\ SolePayer(p, nd, k)
 C19ProRata(nd) == nd.a = "BeginBlock" =>
-  LET p == Pre(nd) IN \A k \in 1..Len(p.gauges) : ProRataChecked(p, nd, k) => ProRataAt(p, nd, k)
+  LET p == Pre(nd) IN \A k \in 1..Len(p.gauges) : ProRataChecked(p, nd, k) => ProRataAt(p, nd, k, FALSE)
+C19ProRataLetter(nd) == nd.a = "BeginBlock" =>
+  LET p == Pre(nd) IN \A k \in 1..Len(p.gauges) : ProRataChecked(p, nd, k) => ProRataAt(p, nd, k, TRUE)
 
 (* ------------------------------------------------------------------ conformance *)
 ConfCreate(nd) == nd.a = "CreateGauge" =>
@@ -122,7 +130,7 @@ ConfBlock(nd) == nd.a = "BeginBlock" =>
          /\ ProRataChecked(p, nd, k) =>
               LET tot == TotalElig(p.pools, g, p.users)  alloc == AllocNow(g)
                   funded == LLe(alloc, p.cust[g.denom])     \* custody can cover the whole allocation: every send succeeds
-                  near(u) == PayNear(Inflow(p, nd, u, g.denom), alloc, Elig(p.pools, g, p.users[u]), tot)
+                  near(u) == PayNear(Inflow(p, nd, u, g.denom), alloc, Elig(p.pools, g, p.users[u]), tot, EligDen(p.pools, g))
               IN
               IF funded
               THEN /\ \A u \in 1..Len(p.users) : near(u)
@@ -158,7 +166,7 @@ ConfValue(nd) == ~IsSplit(nd) =>
 
 (* ------------------------------------------------------------------ judge *)
 Formulas == <<"Conf_Split", "Conf_Create", "Conf_Block", "Conf_Frame", "Conf_Value", "Conf_Ext",
-              "C19_SplitSum", "C19_Cumulative", "C19_CustodyRoot", "C19_CustodyDelta", "C19_EpochCap", "C19_OnlyInEpoch", "C19_ProRata">>
+              "C19_SplitSum", "C19_Cumulative", "C19_CustodyRoot", "C19_CustodyDelta", "C19_EpochCap", "C19_OnlyInEpoch", "C19_ProRata", "C19_ProRataLetter">>
 Holds(f, i) ==
   LET nd == Nd(i) IN
   CASE f = "Conf_Split" -> ConfSplit(nd)
@@ -174,6 +182,7 @@ Holds(f, i) ==
     [] f = "C19_EpochCap" -> C19EpochCap(nd)
     [] f = "C19_OnlyInEpoch" -> C19OnlyInEpoch(nd)
     [] f = "C19_ProRata" -> C19ProRata(nd)
+    [] f = "C19_ProRataLetter" -> C19ProRataLetter(nd)
 
 Judge == cur > 0 => \A k \in 1..Len(Formulas) : Holds(Formulas[k], cur) \/ PrintT(<<"FAIL", Formulas[k], cur>>)
 
